@@ -18,6 +18,7 @@ import (
 	"strings"
 	"sync"
 	"sync/atomic"
+	"syscall"
 	"time"
 )
 
@@ -468,7 +469,47 @@ func (r *Run) Isolate(stage string, f func()) {
 	cmd.Env = append(os.Environ(), "VERIF_STAGE="+stage)
 	var so, se bytes.Buffer
 	cmd.Stdout, cmd.Stderr = &so, &se
-	err := cmd.Run()
+	// Watchdog: a stage of the quick tier takes well under a minute on this machine; one that is still running
+	// after 30 minutes (thorough: 10 hours; VERIF_STAGE_LIMIT overrides, in seconds) is in a loop. It is asked for
+	// its goroutine stacks (SIGQUIT) and reported as not terminating, with the library frame it was found in.
+	limit := 30 * time.Minute
+	if r.Thorough() {
+		limit = 10 * time.Hour
+	}
+	if v, e := strconv.Atoi(os.Getenv("VERIF_STAGE_LIMIT")); e == nil && v > 0 {
+		limit = time.Duration(v) * time.Second
+	}
+	err := cmd.Start()
+	timedOut := false
+	if err == nil {
+		done := make(chan error, 1)
+		go func() { done <- cmd.Wait() }()
+		select {
+		case err = <-done:
+		case <-time.After(limit):
+			timedOut = true
+			cmd.Process.Signal(syscall.SIGQUIT)
+			select {
+			case err = <-done:
+			case <-time.After(20 * time.Second):
+				cmd.Process.Kill()
+				err = <-done
+			}
+		}
+	}
+	if timedOut {
+		msg := se.String()
+		site := "unknown-site"
+		if m := frameRe.FindString(msg); m != "" {
+			site = strings.TrimPrefix(m, "github.com/unixpickle/model3d/")
+		}
+		if len(msg) > 6000 {
+			msg = msg[:6000]
+		}
+		r.Violation(stage+"/nontermination/"+site, fmt.Sprintf("stage %s did not finish within %v (it normally takes seconds): a library call does not terminate; goroutine dump in the replay file", stage, limit), map[string]interface{}{"stage": stage, "stderr": msg})
+		r.NotExhaustive("stage " + stage + " did not terminate")
+		return
+	}
 	gotStats := false
 	for _, line := range strings.Split(so.String(), "\n") {
 		switch {
